@@ -46,6 +46,8 @@ GapToks(s, g) ==
     [] g = "IS"  -> << <<"EL", 0>>, <<"ER", 0>>, <<"S">> >>
     [] g = "ISS" -> << <<"EL", 0>>, <<"ER", 0>>, <<"S">>, <<"S">>, <<"EL", 0>>, <<"ER", 0>> >>
     [] g = "SI"  -> << <<"S">>, <<IF s = 1 THEN "ER" ELSE "EL", 0>>, <<"S">> >>
+    [] g = "LSR" -> << <<"EL", 0>>, <<"S">>, <<"ER", 0>>, <<"S">> >>        \* one side's events are seen and synced before the other's
+    [] g = "RSL" -> << <<"ER", 0>>, <<"S">>, <<"EL", 0>>, <<"S">> >>
     [] g = "IT1S" -> << <<"EL", 0>>, <<"ER", 0>>, <<"T", 1>>, <<"S">> >>       \* one half-ageing unit later: too early
     [] g = "IT2S" -> << <<"EL", 0>>, <<"ER", 0>>, <<"T", 2>>, <<"S">> >>       \* exactly aged
     [] g = "IT3S" -> << <<"EL", 0>>, <<"ER", 0>>, <<"T", 3>>, <<"S">>, <<"S">> >>
@@ -70,7 +72,8 @@ GenUser(s, op, g) ==
          last == nops + 1 = MaxOps
      IN /\ UserEffect(s, op, t2)
         /\ IF last
-             THEN /\ g \in (IF down THEN {"R", "Rrm", "Rrej"} \cap Gaps ELSE {"N"})
+             THEN /\ g \in (IF down THEN {"R", "Rrm", "Rrej"} \cap Gaps
+                              ELSE {"N"} \cup (Gaps \cap {"I1", "IS", "SI", "LSR", "RSL"}))   \* what happens before the final run to quiet
                   /\ tr' = [tr EXCEPT ![s] = t2]
                   /\ down' = FALSE
                   /\ h' = h \o <<OpTok(s, op)>> \o GapToks(s, g) \o << <<"Q">>, <<"AQ">> >>
